@@ -2017,8 +2017,9 @@ static void get_user_data (interactive_t* ip, io_event_t* evt) {
             char *nl, *str;
             char *p = ip->text + ip->text_start;
 
-            memcpy (p, buf, num_bytes);
-            ip->text_end = ip->text_start + num_bytes;
+            /* append to the partial line kept from earlier reads */
+            memcpy (ip->text + ip->text_end, buf, num_bytes);
+            ip->text_end += num_bytes;
             while ((nl = memchr (p, '\n', ip->text_end - ip->text_start)))
               {
                 ip->text_start = (nl + 1) - ip->text;
@@ -2041,6 +2042,13 @@ static void get_user_data (interactive_t* ip, io_event_t* evt) {
                   {
                     p = nl + 1;
                   }
+              }
+            if (ip->text_start > 0)
+              {
+                /* keep the partial line at the start of the buffer so that a whole line fits */
+                memmove (ip->text, ip->text + ip->text_start, ip->text_end - ip->text_start);
+                ip->text_end -= ip->text_start;
+                ip->text_start = 0;
               }
             break;
           }
